@@ -501,10 +501,10 @@ pub struct C11;
 fn inner_strategy(tier: Tier) -> BoxedStrategy<Inner> {
     use crate::engines::*;
     prop_oneof![
-        6 => sys::ops::case_strategy_w(40, 2, 1, 10, 10).prop_map(Inner::Sys),
+        6 => sys::ops::case_strategy_w(40, 2, 1, 10, 10, 6).prop_map(Inner::Sys),
         3 => market::engines::C06.strategy(tier).prop_map(Inner::Market),
-        2 => c12_multisig::C12.strategy(tier).prop_map(Inner::Msig),
-        2 => c16_paych::C16.strategy(tier).prop_map(Inner::Paych),
+        3 => c12_multisig::C12.strategy(tier).prop_map(Inner::Msig),
+        4 => c16_paych::C16.strategy(tier).prop_map(Inner::Paych),
         3 => c09_datacap::C09.strategy(tier).prop_map(Inner::Datacap),
         3 => c20_identity::C20.strategy(tier).prop_map(Inner::Identity),
         3 => c13_control::C13.strategy(tier).prop_map(Inner::Control),
@@ -520,12 +520,13 @@ impl Engine for C11 {
     }
     fn budget(&self, tier: Tier) -> (u32, u32) {
         match tier {
-            Tier::Quick => (64, 6),
+            Tier::Quick => (64, 12),
             Tier::Thorough => (256, 40),
         }
     }
     fn strategy(&self, tier: Tier) -> BoxedStrategy<Case> {
-        (any::<u64>(), prop_oneof![1 => Just(1u8), 3 => Just(2u8), 2 => Just(4u8)], inner_strategy(tier)).prop_map(|(seed, rate, inner)| Case { seed, rate, inner }).boxed()
+        // the system histories consist mostly of cron ticks: they are sampled; the small engines are probed at every message
+        (any::<u64>(), prop_oneof![1 => Just(1u8), 3 => Just(2u8), 2 => Just(4u8)], inner_strategy(tier)).prop_map(|(seed, rate, inner)| Case { seed, rate: if matches!(inner, Inner::Sys(_)) { rate } else { 1 }, inner }).boxed()
     }
     fn rule(&self) -> String {
         "case = a generated history of one of the other engines (system/miner, market, multisig, payment channel, datacap/registry, identity/EAM, miner control, multi-contract EVM) + a probe seed; after every rate-th message the message itself (from its pre-state) and two successful nested invocations of its trace (replayed top-level from the post-state, original caller first as positive control) are re-issued with up to 7 substituted callers drawn from all singletons, up to three actors of every kind in the state tree, the target's own role holders and the target itself, plus an actor with non-built-in code; non-trivial = at least one call to a method whose designated set is not 'anyone' had a positive control and an outside caller was rejected; distinct by case hash".into()
